@@ -179,6 +179,16 @@ def check(facts, rep, tier, cfg):
                 else:
                     rep.bad("C05.R4", "%s/closed-check" % b.path, where, "credit can be taken (and a Push sent) without checking the closed flag: writes after shutdown/abort are transmitted instead of failing with BrokenPipe")
     # ---- R3 half-close (reaction-table cell)
+    rep.rule("C05.R6", "flow control is a precondition of 'EOF only after all bytes': window / queue-capacity / credit rules (= C03.R1..R7); a conforming "
+                       "burst that overruns a mis-sized queue is answered by Reset and the reader sees end-of-stream early")
+    import rules_c03
+    sub6 = type(rep)(rep.prop, rep.tier, rep.config)
+    rules_c03.check(facts, sub6, tier, cfg)
+    rep.paths += sub6.paths
+    for i6 in sub6.instances:
+        rep.ok("C05.R6", "%s/%s" % (i6["rule"], i6["key"]), i6["where"], i6["detail"], nontrivial=False)
+    for v6 in sub6.violations:
+        rep.bad("C05.R6", v6["key"], v6["where"], v6["msg"])
     rep.rule("C05.R5", "teardown EOF comes after the data: frames still buffered in the WebSocket source are dispatched before the flow table is drained")
     wd, res = rules_c08.teardown_outcomes(facts, crate)
     if wd is None:
